@@ -114,3 +114,24 @@ MODULES = {
             dict(name="vdiv_scalar", file=V_ARI, impl=r"DivAssign<T>forVector<T>$", fn="div_assign"),
         ]),
 }
+
+MAT_IMPL = r"^<T:Clone\+Copy\+Number>Matrix<T>$"
+SOL_IMPL = r"^<T:Clone\+Copy\+Number\+Signed\+std::cmp::PartialOrd>Matrix<T>$"
+MODULES["Matrix"] = dict(
+    imports="From OV Require Import Base.Panic Base.Arith Model.Vector Model.Matrix gen.SrcPrelude.",
+    funcs=[dict(name=n, file=M_OPS, impl=MAT_IMPL, fn=n) for n in
+           ["get_row", "get_col", "set_row", "set_col", "delete_row", "multiply", "eye", "resize", "transpose_in_place",
+            "transpose", "swap_rows", "swap_elem", "fill", "fill_diag", "fill_band", "fill_tridiag", "fill_row", "fill_col"]])
+MODULES["Solve"] = dict(
+    imports="From OV Require Import Base.Panic Base.Arith Model.Vector Model.Matrix Model.Solve gen.SrcPrelude.",
+    funcs=[
+        dict(name="max_abs_in_column", file=M_SOL, impl=SOL_IMPL, fn="max_abs_in_column"),
+        dict(name="backsolve", file=M_SOL, impl=SOL_IMPL, fn="backsolve"),
+        dict(name="partial_pivot", file=M_SOL, impl=SOL_IMPL, fn="partial_pivot"),
+        dict(name="gauss_with_pivot", file=M_SOL, impl=SOL_IMPL, fn="gauss_with_pivot"),
+        dict(name="solve_basic", file=M_SOL, impl=SOL_IMPL, fn="solve_basic", result=["ret"]),
+        dict(name="lu_decomp_in_place", file=M_SOL, impl=SOL_IMPL, fn="lu_decomp_in_place", result=["self", "ret.0", "ret.1"]),
+        dict(name="solve_lu", file=M_SOL, impl=SOL_IMPL, fn="solve_lu", result=["ret"]),
+        dict(name="determinant", file=M_SOL, impl=SOL_IMPL, fn="determinant"),
+        dict(name="inverse", file=M_SOL, impl=SOL_IMPL, fn="inverse"),
+    ])
